@@ -806,7 +806,13 @@ namespace jsoncons {
                         case json_storage_kind::object:
                             if (!kv.value().empty())
                             {
-                                temp.emplace_back(std::move(kv.value()));
+                                JSONCONS_TRY
+                                {
+                                    temp.emplace_back(std::move(kv.value()));
+                                }
+                                JSONCONS_CATCH(...) // no memory to flatten: the value is destroyed recursively with its parent
+                                {
+                                }
                             }
                             break;
                         default:
